@@ -76,6 +76,7 @@ pub struct Transport {
     pub in_avail: usize,
     /// (virtual time, new `in_avail`) — sorted by time.
     pub scheduled: Vec<(u64, usize)>,
+    last_sched: u64,
     /// Once all available inbound bytes are consumed, `read` returns `Ok(0)`.
     pub eof: bool,
     pub out: Vec<u8>,
@@ -106,6 +107,7 @@ impl Transport {
             in_pos: 0,
             in_avail: 0,
             scheduled: Vec::new(),
+            last_sched: 0,
             eof: false,
             out: Vec::new(),
             read_chunks: Chunker::whole(),
@@ -130,18 +132,15 @@ impl Transport {
         self.release_due();
     }
 
-    /// Queue bytes that become readable at virtual time `at`.
-    pub fn push_inbound_at(&mut self, at: u64, bytes: &[u8]) {
+    /// Queue bytes that become readable at virtual time `at` (never earlier than bytes queued
+    /// before them: one ordered byte stream). Returns the effective arrival time.
+    pub fn push_inbound_at(&mut self, at: u64, bytes: &[u8]) -> u64 {
+        let at = at.max(self.last_sched);
+        self.last_sched = at;
         self.inbound.extend_from_slice(bytes);
         let upto = self.inbound.len();
         self.scheduled.push((at, upto));
-        self.scheduled.sort_by_key(|e| e.0);
-        // keep `upto` monotone in time order
-        let mut m = 0;
-        for e in self.scheduled.iter_mut() {
-            m = m.max(e.1);
-            e.1 = m;
-        }
+        at
     }
 
     /// Make scheduled bytes whose time has come available. Returns the next arrival time, if any.
